@@ -13,10 +13,9 @@ def one(job):
     pid, patch = job
     wt = tempfile.mkdtemp(prefix="selftest-")
     try:
-        subprocess.run(["git", "-C", "/repo", "worktree", "add", "-q", "--detach", wt, "HEAD"], check=True,
-                       stdout=subprocess.DEVNULL, stderr=subprocess.DEVNULL)
-        # include uncommitted /repo changes? no: HEAD only.
-        r = subprocess.run(["git", "-C", wt, "apply", patch], capture_output=True, text=True)
+        # scratch copy of /repo's HEAD (plain export: parallel-safe, no worktree bookkeeping)
+        subprocess.run(f"git -C /repo archive HEAD dataiter | tar -x -C {wt}", shell=True, check=True)
+        r = subprocess.run(["git", "apply", "--unsafe-paths", "--directory", wt, patch], capture_output=True, text=True, cwd=wt)
         if r.returncode:
             return (pid, patch, "PATCH-FAILED", r.stderr.strip()[:200])
         env = dict(os.environ, VERIF_REPO=wt)
@@ -25,7 +24,6 @@ def one(job):
         status = {0: "MISSED", 1: "caught", 2: "HARNESS-ERROR"}.get(r.returncode, f"rc={r.returncode}")
         return (pid, patch, status, (detail[0][:160] if detail else r.stdout.strip().splitlines()[-1][:160] if r.stdout.strip() else ""))
     finally:
-        subprocess.run(["git", "-C", "/repo", "worktree", "remove", "--force", wt], stdout=subprocess.DEVNULL, stderr=subprocess.DEVNULL)
         shutil.rmtree(wt, ignore_errors=True)
 
 def main():
@@ -41,7 +39,7 @@ def main():
             if not pids or pid in pids:
                 jobs.append((pid, os.path.join(os.path.dirname(m), "patch.diff")))
     bad = 0
-    with ThreadPoolExecutor(8) as ex:
+    with ThreadPoolExecutor(12) as ex:
         for pid, patch, status, info in ex.map(one, jobs):
             print(f"{status:14s} {pid} {os.path.relpath(patch, ROOT)}  {info}")
             bad += status != "caught"
